@@ -240,6 +240,9 @@ func setupEthProofClientNamed(l *LC, name string, reorg bool, rAbs, r1, r0 commo
 			h102 = h
 		}
 	}
+	if name == "cli-ethu" {
+		panic("use setupEthProofClientUpgraded")
+	}
 	if reorg {
 		s := mk(103, h102, r0)
 		s.Extra = []byte("sibling")
@@ -250,6 +253,51 @@ func setupEthProofClientNamed(l *LC, name string, reorg bool, rAbs, r1, r0 commo
 		}
 		return &evClient{C: c, Name: name, HOK: 101, HDelay: 102, HAbove: 104, HUnknown: 99, HAbsent: 100}
 	}
+	return &evClient{C: c, Name: name, HOK: 101, HDelay: 102, HAbove: 104, HUnknown: 99, HAbsent: 100}
+}
+
+// setupEthProofClientUpgraded: created at 100 (root rAbs), updated with 101 (root r1), then moved by a governance upgrade
+// to a header 102 (root r1) whose consensus state carries no height of its own (the field is redundant: the state is
+// stored under the header's height), then updated with 103 (root r0).  With a block delay of 2 the state at 101 may be
+// used, the installed one at 102 not yet.
+func setupEthProofClientUpgraded(l *LC, rAbs, r1, r0 common.Hash) *evClient {
+	c := l.C
+	name := "cli-ethu"
+	l.EnsureRelayer([]string{name})
+	base := uint64(c.Header.Time.Unix()) - 1000
+	mk := func(n uint64, parent *ethtypes.Header, root common.Hash) *ethtypes.Header {
+		h := &ethtypes.Header{UncleHash: make([]byte, 32), Coinbase: make([]byte, 20), Root: root.Bytes(), TxHash: make([]byte, 32), ReceiptHash: make([]byte, 32),
+			Bloom: make([]byte, 256), Difficulty: big.NewInt(1).Bytes(), Height: clienttypes.NewHeight(0, n), GasLimit: 30_000_000, GasUsed: 15_000_000,
+			Time: base + 10*(n-100), Extra: []byte("u"), MixDigest: make([]byte, 32), BaseFee: big.NewInt(1000).Bytes(), ParentHash: make([]byte, 32)}
+		if parent != nil {
+			h.ParentHash = parent.Hash().Bytes()
+		}
+		return h
+	}
+	update := func(h *ethtypes.Header) {
+		msg, err := clienttypes.NewMsgUpdateClient(name, h, c.Accts[lcRelayer].Acc)
+		must(err)
+		if r := c.DeliverMsgs(c.Accts[lcRelayer], msg); !r.OK() {
+			panic("eth update: " + r.Log)
+		}
+	}
+	g := mk(100, nil, rAbs)
+	cs := &ethtypes.ClientState{Header: *g, ChainId: 4, ContractAddress: evContract.Bytes(), TrustingPeriod: 1_000_000_000, TimeDelay: 0, BlockDelay: 2}
+	prop, err := clienttypes.NewCreateClientProposal("t", "d", name, cs, &ethtypes.ConsensusState{Timestamp: g.Time, Height: g.Height, Root: g.Root})
+	must(err)
+	if res, msg := c.ExecProposal(prop); res != "ok" {
+		panic("create eth proof client: " + msg)
+	}
+	h101 := mk(101, g, r1)
+	update(h101)
+	h102 := mk(102, h101, r1)
+	cs2 := &ethtypes.ClientState{Header: *h102, ChainId: 4, ContractAddress: evContract.Bytes(), TrustingPeriod: 1_000_000_000, TimeDelay: 0, BlockDelay: 2}
+	up, err := clienttypes.NewUpgradeClientProposal("t", "d", name, cs2, &ethtypes.ConsensusState{Timestamp: h102.Time, Root: h102.Root})
+	must(err)
+	if res, msg := c.ExecProposal(up); res != "ok" {
+		panic("upgrade eth proof client: " + msg)
+	}
+	update(mk(103, h102, r0))
 	return &evClient{C: c, Name: name, HOK: 101, HDelay: 102, HAbove: 104, HUnknown: 99, HAbsent: 100}
 }
 
@@ -299,6 +347,7 @@ func driveEVMProof(t *testing.T, in, out string, seed int64) {
 		w1, w0, wabs *evState
 		eth, bsc     *evClient
 		ethr         *evClient // the reorganised ETH client (a consensus state stored above its head)
+		ethu         *evClient // the ETH client moved on by a governance upgrade (an installed consensus state without a height of its own)
 	}
 	worlds := map[string]*world{}
 	getWorld := func(valueCls string) *world {
@@ -310,6 +359,7 @@ func driveEVMProof(t *testing.T, in, out string, seed int64) {
 		w.eth = setupEthProofClient(l, w.wabs.root(), w.w1.root(), w.w0.root())
 		w.bsc = setupBscProofClient(l, keys, w.wabs.root(), w.w1.root(), w.w0.root())
 		w.ethr = setupEthProofClientNamed(l, "cli-ethr", true, w.wabs.root(), w.w1.root(), w.w0.root())
+		w.ethu = setupEthProofClientUpgraded(l, w.wabs.root(), w.w1.root(), w.w0.root())
 		worlds[valueCls] = w
 		return w
 	}
@@ -447,6 +497,12 @@ func driveEVMProof(t *testing.T, in, out string, seed int64) {
 			}
 		case "withindelay":
 			height = cl.HDelay
+		case "delayinstalled":
+			// within the delay, at a height whose consensus state was installed by a governance upgrade (ETH)
+			height = cl.HDelay
+			if str(cs["client"]) == "eth" {
+				cl = w.ethu
+			}
 		}
 		proofBz, err := json.Marshal(proof)
 		must(err)
